@@ -1,5 +1,7 @@
 import Percival.Proofs.CpuPaths
 import Percival.Proofs.CpuAesni
+import Percival.Spec.AesFailMon
+import Percival.Proofs.AesStep
 /-!
 # C03 — every CPU-accelerated code path computes the same function as the portable one
 
@@ -348,5 +350,35 @@ theorem aesni_rejects_other_key_lengths (key : List UInt8) (inp : R) (h : key.le
 example : aesniEncrypt [1, 2, 3] ⟨W4.zero, W4.zero, W4.zero, W4.zero⟩ = none := by decide
 
 end aesni
+
+/-! ## the dispatch self-test under an allocation failure (`pmodel aesfailmon`) -/
+
+/-- **What the `aes-selftest-allocfail` monitor expects is the Spec.**  For a 16-byte block and a 128/256-bit first
+    key: the harness' stream input exists (48 bytes, `blk[j mod 16] + j`); the expected block ciphertexts are FIPS-197
+    under the two keys; the expected stream output is SP 800-38A CTR (nonce 7) of that input — which is also what the
+    statement-level model of `crypto_aesctr_buf` (C02) computes under the expanded first key on *either* routing
+    (portable or AES-NI bulk loop), so a self-test that silently selects the other path cannot change it; and the
+    monitor accepts exactly these answers (and `fail`). -/
+theorem aesfail_expect_is_spec (k1 k2 blk : List UInt8) (h1 : k1.length = 16 ∨ k1.length = 32)
+    (hb : blk.length = 16) (hw : Bool) :
+    ∃ sin e rks, AesFailMon.pattern blk = some sin ∧ sin.length = 48 ∧
+      (∀ j, j < 48 → sin[j]? = blk[j % 16]?.map (· + UInt8.ofNat j)) ∧
+      AesFailMon.expect k1 blk k2 = some e ∧
+      e.c1 = Aes.encryptBlock k1 blk ∧ e.c2 = Aes.encryptBlock k2 blk ∧
+      e.c3 = Ctr.stream (Aes.encryptBlock k1) 7 sin ∧
+      Model.AesStep.expandKey k1 = some rks ∧
+      Model.AesCtr.ctrBuf Model.AesStep.enc hw Model.AesStep.raw rks 7 sin = some e.c3 ∧
+      AesFailMon.accepts e (.ct (some e.c1) (some e.c2) (some e.c3)) = true ∧ AesFailMon.accepts e .fail = true := by
+  obtain ⟨a0, a1, a2, a3, a4, a5, a6, a7, a8, a9, a10, a11, a12, a13, a14, a15, rfl⟩ := Proofs.Aes.len16 blk hb
+  obtain ⟨hwf, hx⟩ := Proofs.AesStep.expandKey_eq k1 h1
+  refine ⟨_, _, _, rfl, rfl, ?_, rfl, rfl, rfl, rfl, hx, ?_, ?_, rfl⟩
+  · intro j hj
+    iterate 48 (rcases j with _ | j; · rfl)
+    omega
+  · rw [Proofs.AesStep.ctrBuf_spec hw _ 7 _ (by simp)]; rfl
+  · simp [AesFailMon.accepts]
+
+example : AesFailMon.pattern (List.replicate 16 0xf0) = some ((List.range 48).map fun j => 0xf0 + UInt8.ofNat j) := by
+  decide
 
 end Percival.C03
